@@ -266,6 +266,34 @@ func EncodeEntryTo(w io.Writer, e *Entry) (int, error) {
 // to the pool and avoid memory leaks.
 //
 // In addition to the Entry, it also returns the total length of the record in the stream.
+// readDeclaredStep bounds how far the buffer of readDeclared runs ahead of the data read.
+const readDeclaredStep = 64 << 10
+
+// readDeclared reads exactly n bytes from r into buf, reusing its capacity. When buf is too
+// small it grows as the data arrives, in steps of at most readDeclaredStep: the length n
+// comes from an entry header that has not been verified yet, so a corrupt header must not
+// make the decoder allocate more than the input delivers (plus one step).
+func readDeclared(r io.Reader, buf []byte, n int) ([]byte, error) {
+	if cap(buf) >= n {
+		buf = buf[:n]
+		_, err := io.ReadFull(r, buf)
+		return buf, err
+	}
+	buf = buf[:0]
+	for len(buf) < n {
+		step := n - len(buf)
+		if step > readDeclaredStep {
+			step = readDeclaredStep
+		}
+		start := len(buf)
+		buf = append(buf, make([]byte, step)...)
+		if _, err := io.ReadFull(r, buf[start:]); err != nil {
+			return buf, err
+		}
+	}
+	return buf, nil
+}
+
 func DecodeEntryFrom(r io.Reader) (*Entry, uint32, error) {
 	if r == nil {
 		return nil, 0, errors.New("kv: decode entry from nil reader")
@@ -304,12 +332,7 @@ func DecodeEntryFrom(r io.Reader) (*Entry, uint32, error) {
 	entry.Meta = header.Meta
 	entry.ExpiresAt = header.ExpiresAt
 
-	if cap(entry.Key) < keyLen {
-		entry.Key = make([]byte, keyLen)
-	} else {
-		entry.Key = entry.Key[:keyLen]
-	}
-	if _, err := io.ReadFull(hashReader, entry.Key); err != nil {
+	if entry.Key, err = readDeclared(hashReader, entry.Key, keyLen); err != nil {
 		entry.DecrRef()
 		if errors.Is(err, io.EOF) || errors.Is(err, io.ErrUnexpectedEOF) {
 			return nil, 0, ErrPartialEntry
@@ -317,12 +340,7 @@ func DecodeEntryFrom(r io.Reader) (*Entry, uint32, error) {
 		return nil, 0, err
 	}
 
-	if cap(entry.Value) < valueLen {
-		entry.Value = make([]byte, valueLen)
-	} else {
-		entry.Value = entry.Value[:valueLen]
-	}
-	if _, err := io.ReadFull(hashReader, entry.Value); err != nil {
+	if entry.Value, err = readDeclared(hashReader, entry.Value, valueLen); err != nil {
 		entry.DecrRef()
 		if errors.Is(err, io.EOF) || errors.Is(err, io.ErrUnexpectedEOF) {
 			return nil, 0, ErrPartialEntry
